@@ -24,8 +24,16 @@ Proof. reflexivity. Qed.
 Lemma link_clear_destroys : count_destroy g_clear = 2%nat.
 Proof. reflexivity. Qed.
 
-(* mem_cache::store: catch(bad_alloc) of the value copy is  remove(key); return;  the other one is  nl_clear();  and nl_clear
-   clears timeout, lru, primary, triggers (ResDefs.store / clear_keep_ar) *)
-Lemma link_store_handlers :
-  g_store_value_copy_handler_removes && g_store_handler_clears && g_nl_clear_clears_every_container = true.
+(* mem_cache::store: catch(bad_alloc) of the value copy is  remove(key); return;  the other one is  nl_clear();  (ResDefs.r_store) *)
+Lemma link_store_handlers : g_store_value_copy_handler_removes && g_store_handler_clears = true.
+Proof. reflexivity. Qed.
+
+(* nl_clear (repaired, /repo a6386b3): timeout.clear(); lru.clear(); primary.clear(); triggers.clear(); size=0; triggers_count=0;
+   and only then primary.rehash(limit); triggers.rehash(limit);  - the statement order of ResDefs.nl_clear *)
+Lemma link_nl_clear_rehashes_last : g_nl_clear_clears_every_container_then_rehashes = true.
+Proof. reflexivity. Qed.
+
+(* fetch (repaired, /repo 117bb4c): the recency update is  lock_guard lock( *lru_mutex); lru.splice(lru.begin(),lru,p->second.lru);
+   and nothing else - ResDefs.RFetch obtains and releases no block *)
+Lemma link_fetch_lru_update_is_one_splice : g_fetch_lru_update_is_one_splice = true.
 Proof. reflexivity. Qed.
